@@ -240,6 +240,15 @@ func RunReplays(repo, root string, jobs []ReplayJob, race bool, timeout time.Dur
 				}
 			}
 		}
+		if strings.Contains(buf.String(), "WARNING: DATA RACE") {
+			for _, j := range byDir[dkey] {
+				if rr := out[j.Path]; rr != nil {
+					rr.Failures = append(rr.Failures, "DATA RACE")
+					i := strings.Index(buf.String(), "WARNING: DATA RACE")
+					rr.Stack = trunc(buf.String()[i:], 1500)
+				}
+			}
+		}
 		if n < len(byDir[dkey]) {
 			logs.WriteString(fmt.Sprintf("replay of %s: %d of %d results; output:\n%s\n", d, n, len(byDir[dkey]), trunc(buf.String(), 4000)))
 		}
